@@ -73,11 +73,19 @@ def check_score(P, R, key, client_terms):
         R.check(fl is not None and const_value(fl) is True, "TABLE.frame-norm", key, f"frame_length_normalization={src(fl) if fl is not None else '<default False>'}", "frame-normalised", "the ISV/JFA score is not frame-length normalised", c.lineno)
     # pooling: sum over all elements with __add__
     pools = []
+    scopes = [f]
     for n in walk_no_nested(f.node):
-        if isinstance(n, ast.Call) and isinstance(n.func, ast.Name) and n.func.id == "sum":
-            pools.append(n)
-        if isinstance(n, ast.Call) and src(n.func).endswith("reduce"):
-            pools.append(n)
+        # the pooling may live in a helper that receives the probe
+        if isinstance(n, ast.Call) and any(isinstance(a, ast.Name) and a.id == data_p for a in list(n.args) + [k.value for k in n.keywords]):
+            for t_ in P.resolve_callee(n.func, f):
+                if t_[0] == "repo" and t_[1] not in scopes and not t_[1].qualname.endswith(("estimate_x", "estimate_ux")):
+                    scopes.append(t_[1])
+    for sc_ in scopes:
+        for n in walk_no_nested(sc_.node):
+            if isinstance(n, ast.Call) and isinstance(n.func, ast.Name) and n.func.id == "sum":
+                pools.append(n)
+            if isinstance(n, ast.Call) and src(n.func).endswith("reduce"):
+                pools.append(n)
     if not pools:
         R.violation("COVER.pool", key, "pooling of a multi-statistics probe", "several statistics of one probe are no longer pooled")
     for n in pools:
